@@ -96,7 +96,10 @@ func main() {
 		common.Fatal("%v", err)
 	}
 	w.SetBase(o.TraceBase())
-	nsch := len(fam)
+	nsch := 6 // t_int, t_null, t_comp, t_str, t_auto, t_zoo
+	if os.Getenv("VERIF_ZOO_HARSH") != "" {
+		nsch = 7 // + t_zooh: value classes with known defects (reported by C08)
+	}
 	if !o.Thorough() {
 		nsch = 3 // quick: t_int, t_null, t_comp (rotating)
 	}
@@ -325,8 +328,15 @@ func run(lab *atlab.Lab, t *trace.T, sc scenario, schema *atlab.Schema, style at
 		for _, fail := range fails {
 			status, fired := lab.Rollback(xid, bid, fail)
 			db, extra := lab.Project(schema)
+			idle := lab.Idle()
+			if !idle && os.Getenv("VERIF_DUMP") != "" {
+				fmt.Fprintf(os.Stderr, "NOTIDLE %+v\n", lab.Srv.ConnStates())
+				for _, e := range lab.Srv.Journal() {
+					fmt.Fprintf(os.Stderr, "J c%d %-18s %-12s intx=%v err=%s | %.90s\n", e.Conn, e.Class, e.Table, e.InTx, e.Err, e.SQL)
+				}
+			}
 			t.Add("Rb", "b", b, "fail", fail, "fired", fired, "status", status, "db", db, "extra", extra,
-				"undo", lab.UndoState(xid, bid), "idle", lab.Idle(),
+				"undo", lab.UndoState(xid, bid), "idle", idle,
 				"sig", fmt.Sprintf("%s:%s:fail=%d:fired=%v:status=%s", sigBase, kindsOf[b], fail, fired, status))
 			if status == "rollbacked" {
 				rolledBack = true
@@ -335,6 +345,12 @@ func run(lab *atlab.Lab, t *trace.T, sc scenario, schema *atlab.Schema, style at
 		if !rolledBack {
 			break // the coordinator does not go on to earlier branches while this one keeps failing
 		}
+	}
+	if os.Getenv("VERIF_DUMP") != "" {
+		for _, e := range lab.Srv.Journal() {
+			fmt.Fprintf(os.Stderr, "J c%d %-18s %-12s intx=%v err=%s | %.90s\n", e.Conn, e.Class, e.Table, e.InTx, e.Err, e.SQL)
+		}
+		fmt.Fprintf(os.Stderr, "CONNS %+v\n", lab.Srv.ConnStates())
 	}
 	t.Add("End", "sig", "end")
 	return true
